@@ -36,4 +36,18 @@ CHECKS = {
                  'remain; private waiter tables are read for one clause only (behavioural residue test is independent)'),
         'technique': 'deterministic simulation with enumerated connect-outcome matrix + seeded timing/cancellation search',
     },
+    'C10': {
+        'category': 'exploration',
+        'text': ('seeded search over 1-6 concurrent connection episodes (incoming / outgoing direct / outgoing indirect / '
+                 'connect-back; clear or obfuscated; P/D/F) each ended in one way of the quantifier (local disconnect by '
+                 '1-3 concurrent callers, remote FIN/RST before or after the init message, reset in mid-frame, read and '
+                 'write timeout, garbage/unknown/truncated init, unknown pierce ticket, refused/black-holed/reset connect, '
+                 'cancellation of the connecting call at swept loop iterations), optionally with a suspending application '
+                 'listener; a directed corpus walks every (kind x type x end) once. A monitor registered as first listener '
+                 'follows every reported state; registry and sockets are compared at quiescent moments.'),
+        'design_ref': 'DESIGN.md section 3 (C10)',
+        'note': ('idle file connections have no reader, so remote ends after the init message are out of scope for type F here '
+                 '(C04 breaks file connections inside transfers); messages handled while CLOSING are not counted, only after CLOSED'),
+        'technique': 'deterministic simulation with injected connection faults + per-connection monitor automaton and registry/socket comparison',
+    },
 }
